@@ -15,25 +15,24 @@ From Tetl Require Import Lib.Base C17.Ops C17.Model C17.Spec C17.Words C17.Abs C
 From Coq Require Import NArith.
 Local Open Scope nat_scope.
 
-(* MAIN: every history prints on the model exactly what it prints on std::bitset — after every
+(* MAIN: EVERY history prints on the model exactly what it prints on std::bitset — after every
    step to_string, count, all, any, none, to_ullong (Bits <= 64), ==, the answers of test /
    operator[] / the proxy's bool and ~, and "precondition failed" exactly where std::bitset throws
-   out_of_range (or, for operator[], leaves its domain) — from value-initialised sets and from any
-   well-formed pair of storage arrays.
-   op_dom only excludes strings with characters other than zero/one (std: invalid_argument). *)
-Theorem C17_history_refines : forall bits k, 0 < bits -> forall ops, forallb op_dom ops = true ->
+   out_of_range or invalid_argument (or, for operator[], leaves its domain) — from value-initialised
+   sets and from any well-formed pair of storage arrays.  No hypothesis on the history. *)
+Theorem C17_history_refines : forall bits k, 0 < bits -> forall ops,
   run_m bits (2 ^ k) (init_m bits (2 ^ k)) ops = s_run bits (s_init bits) ops
   /\ forall st, wf2 bits k st -> run_m bits (2 ^ k) st ops = s_run bits (abs2 bits k st) ops.
 Proof.
-  intros bits k Hb ops Hd.
-  exact (conj (history_refines bits k Hb ops Hd) (fun st Hst => run_refines bits k Hb ops st Hst Hd)).
+  intros bits k Hb ops.
+  exact (conj (history_refines bits k Hb ops) (fun st Hst => run_refines bits k Hb ops st Hst)).
 Qed.
 Print Assumptions C17_history_refines.
 
 (* one step: refinement of every operation, preservation of the invariant, and the contract
    fires exactly when std::bitset has no defined (non-throwing) answer; never UB, never out of fuel *)
 Theorem C17_step_refines : forall bits k, 0 < bits -> forall st o,
-  wf2 bits k st -> op_dom o = true ->
+  wf2 bits k st ->
   match step_m bits (2 ^ k) st o with
   | Ok (st', q) => wf2 bits k st' /\ s_step bits (abs2 bits k st) o = Some (abs2 bits k st', q)
   | Contract => s_step bits (abs2 bits k st) o = None
@@ -45,14 +44,14 @@ Print Assumptions C17_step_refines.
 (* padding invariant: after every history both storage arrays are well formed; in particular they
    have num_words words and the unused high bits of the last word are zero
    (last word < 2^(w - padding)) *)
-Theorem C17_padding_zero_inv : forall bits k, 0 < bits -> forall ops, forallb op_dom ops = true ->
+Theorem C17_padding_zero_inv : forall bits k, 0 < bits -> forall ops,
   (forall st, wf2 bits k st -> wf2 bits k (final_state bits k st ops))
   /\ let st := final_state bits k (init_m bits (2 ^ k)) ops in
      last_word_clean bits k (fst st) /\ last_word_clean bits k (snd st)
      /\ length (fst st) = num_words bits (2 ^ k) /\ length (snd st) = num_words bits (2 ^ k).
 Proof.
-  intros bits k Hb ops Hd.
-  exact (conj (fun st Hst => invariant_along_history bits k Hb ops st Hst Hd) (padding_zero_inv bits k Hb ops Hd)).
+  intros bits k Hb ops.
+  exact (conj (fun st Hst => invariant_along_history bits k Hb ops st Hst) (padding_zero_inv bits k Hb ops)).
 Qed.
 Print Assumptions C17_padding_zero_inv.
 
@@ -80,18 +79,17 @@ Print Assumptions C17_observers_spec.
 
 (* constructors.  Integer: every value, bits above min(64, Bits) are dropped.  String: every string /
    pos / n (size_t incl. npos) / zero / one: the precondition fires exactly when std throws
-   out_of_range; otherwise the array is well formed whatever the characters are, and for strings of
-   zero/one characters it stands for the standard's value (last used character = bit 0, only the
-   first Bits characters used) *)
+   (out_of_range: pos > size; invalid_argument: one of the min(n, size-pos) characters is neither
+   zero nor one); otherwise the array is well formed and stands for the standard's value (last used
+   character = bit 0, only the first Bits characters used) *)
 Theorem C17_constructors_spec : forall bits k, 0 < bits ->
   (forall val, wf bits k (of_ullong bits (2 ^ k) (ones (2 ^ k)) (ones 64) val)
                /\ abs bits k (of_ullong bits (2 ^ k) (ones (2 ^ k)) (ones 64) val) = s_of_ullong bits val)
   /\ forall str pos n zero one,
      match of_string bits (2 ^ k) (ones (2 ^ k)) (ones 64) str pos n zero one with
-     | Ok ws => length str >= pos /\ wf bits k ws
-                /\ (str_valid str pos n zero one = true ->
-                    s_of_string bits str pos n zero one = SOk (abs bits k ws))
+     | Ok ws => wf bits k ws /\ s_of_string bits str pos n zero one = SOk (abs bits k ws)
      | Contract => s_of_string bits str pos n zero one = SOutOfRange
+                   \/ s_of_string bits str pos n zero one = SInvalid
      | _ => False
      end.
 Proof. intros bits k Hb. exact (conj (of_ullong_spec bits k Hb) (of_string_spec bits k Hb)). Qed.
@@ -113,15 +111,15 @@ Print Assumptions C17_popcount_fallback.
 
 (* non-vacuity: the hypotheses are satisfiable and the conclusions non-trivial at widths one below
    a word multiple, at it and above it: concrete histories (string constructor "1000001" resp. 2^63+1,
-   flip all, set the top bit, proxy copy, a failing position) evaluated on model and spec *)
+   flip all, set the top bit, proxy copy, a failing position, a foreign character, pos > size)
+   evaluated on model and spec *)
 Example C17_nonvacuous :
-  forallb op_dom (nv_ops 6) = true
-  /\ run_m 7 8 (init_m 7 8) (nv_ops 6) = s_run 7 (s_init 7) (nv_ops 6)
+  run_m 7 8 (init_m 7 8) (nv_ops 6) = s_run 7 (s_init 7) (nv_ops 6)
   /\ run_m 64 64 (init_m 64 64) (nv_ops 63) = s_run 64 (s_init 64) (nv_ops 63)
   /\ run_m 65 64 (init_m 65 64) (nv_ops 64) = s_run 65 (s_init 65) (nv_ops 64)
   /\ map (option_map (fun r => (o_count (fst r), o_all (fst r), snd r))) (run_m 65 64 (init_m 65 64) (nv_ops 64))
      = [Some (2, false, []); Some (63, false, []); Some (63, false, []); Some (0, false, []);
         Some (65, true, []); Some (65, true, []); Some (63, false, []); Some (63, false, [true; true; true; false]);
-        None; Some (1, false, []); Some (64, false, [])]
+        None; Some (1, false, []); None; None; Some (64, false, [])]
   /\ fst (final_state 65 6 (init_m 65 64) (nv_ops 64)) = [18446744073709551614; 1]%N.
 Proof. exact nonvacuous. Qed.
